@@ -19,6 +19,9 @@ type vBlockingTransport struct {
 	past       bool
 	setCalls   int
 	clears     int
+	nonzero    int       // deadlines other than "none" that were ever installed
+	deadline   time.Time // a deadline in the future that is currently installed
+	gen        int
 	syncWrites bool
 }
 
@@ -44,20 +47,39 @@ func (t *vBlockingTransport) Read(b []byte) (int, error) {
 
 func (t *vBlockingTransport) SetDeadline(tm time.Time) error {
 	t.setCalls++
+	t.gen++
 	if tm.IsZero() {
 		t.clears++
+		t.deadline = time.Time{}
 		if t.past {
 			t.past = false
 			t.dl = make(chan struct{})
 		}
 		return nil
 	}
+	t.nonzero++
 	vStall(30) // the call into the connection may be slow: other goroutines run meanwhile
+	if tm.After(time.Now()) {
+		// a deadline in the future takes effect when (virtual) time reaches it
+		t.deadline = tm
+		gen := t.gen
+		time.AfterFunc(time.Until(tm), func() {
+			if t.gen == gen {
+				t.expire()
+			}
+		})
+		return nil
+	}
+	t.expire()
+	return nil
+}
+
+func (t *vBlockingTransport) expire() {
+	t.deadline = time.Time{}
 	if !t.past {
 		t.past = true
 		close(t.dl)
 	}
-	return nil
 }
 
 func (t *vBlockingTransport) deliver(b []byte) {
@@ -84,13 +106,23 @@ func verifC10AfterReturn() {
 	if vBool() {
 		vYield() // the watcher may run before the cancellation...
 	}
-	cancel()
+	if vBool() {
+		cancel()
+	} // (or the context is never cancelled: the watcher must still go away)
 	left := vQuiesce() // ...or after it
 	vAssert(!tr.past, "cancelling the context after NewConn returned leaves no deadline on the connection")
+	vAssert(tr.nonzero == 0, "the watcher never touches the connection's deadline once NewConn has returned")
 	buf := make([]byte, 256)
 	n, err := c.Read(buf)
 	vAssert(n > 0 && err == nil, "I/O after a successful NewConn is unaffected by the cancelled context")
+	rec := vRecord(23, 0x0303, []byte{1, 2})
+	tr.deliver(rec)
+	n, err = c.Read(buf)
+	vAssert(n == len(rec) && err == nil, "a later Read that reaches the transport works")
+	n, err = c.Write(rec)
+	vAssert(n == len(rec) && err == nil, "a later Write works")
 	vAssert(left == 0, "the watcher goroutine has terminated")
+	cancel()
 	vReach("after-return")
 }
 
@@ -122,7 +154,8 @@ func verifC10WhileBlocked() {
 	}
 	// the hello was delivered, then the context was cancelled at some point
 	if err == nil {
-		vQuiesce()
+		left := vQuiesce()
+		vAssert(left == 0, "no goroutine is left behind by a successful NewConn")
 		vAssert(!tr.past, "a successful NewConn leaves no deadline behind, whenever the context was cancelled")
 		buf := make([]byte, 256)
 		n, rerr := c.Read(buf)
@@ -160,4 +193,51 @@ func verifC10Stall() {
 	_, err := NewConn(ctx, tr)
 	vAssert(err != nil, "a stalled client and an ended context make NewConn fail")
 	vReach("stall-returned")
+}
+
+// verifC10Timeout: a context with a deadline (context.WithTimeout) instead of a
+// cancel function.  (a) The hello is available: NewConn returns at once, no
+// deadline is ever installed on the connection, and when the context's deadline
+// passes later the connection is still usable in both directions.  (b) The
+// client stalls: NewConn fails no later than the context's deadline plus the
+// modelled stalls.
+func verifC10Timeout() {
+	vSchedForks(true)
+	tr := newVBlockingTransport()
+	const timeout = 200 * time.Millisecond
+	start := vNowNanos()
+	ctx, cancel := context.WithTimeout(context.Background(), timeout)
+	defer cancel()
+	hello := vPlainHello()
+	if vBool() {
+		tr.in = hello
+		c, err := NewConn(ctx, tr)
+		vAssert(err == nil, "NewConn succeeds when the hello is available")
+		vAssert(tr.nonzero == 0, "no deadline is installed on the connection while the context is alive")
+		vAdvance(int64(2 * timeout)) // the context's deadline passes now
+		vQuiesce()
+		vAssert(!tr.past && tr.deadline.IsZero(), "the context's deadline does not govern the connection after NewConn returned")
+		buf := make([]byte, 256)
+		n, rerr := c.Read(buf)
+		vAssert(n == len(hello) && rerr == nil, "the hello is readable")
+		rec := vRecord(23, 0x0303, []byte{1, 2})
+		tr.deliver(rec)
+		n, rerr = c.Read(buf)
+		vAssert(n == len(rec) && rerr == nil, "a later Read that reaches the transport works")
+		n, werr := c.Write(rec)
+		vAssert(n == len(rec) && werr == nil, "a later Write works")
+		vReach("timeout-after-return")
+		return
+	}
+	cut := []int{0, 5, len(hello) - 1}[vInt(0, 2)]
+	tr.in = append(tr.in, hello[:cut]...)
+	_, err := NewConn(ctx, tr)
+	elapsed := vNowNanos() - start
+	vAssert(err != nil, "a stalled client makes NewConn fail when the context's deadline passes")
+	if vSymbolic() {
+		vAssert(elapsed <= int64(timeout), "NewConn fails promptly: no later than the context's deadline (virtual time)")
+	} else {
+		vAssert(elapsed <= int64(timeout+3*time.Second), "NewConn fails promptly")
+	}
+	vReach("timeout-stalled")
 }
